@@ -20,7 +20,12 @@ FAMS = ["faults"]
 # signatures are computed by Trace_Faults.Sig / Trace_URLState.Sig.
 # eleven of the thirteen causes found by this check were fixed in /repo (known-findings.json, kind "fixed"); the two below are
 # deliberate-looking behaviour of native calls (no documented contract) and stay listed as known findings
-PROPOSED_KNOWN = []
+PROPOSED_KNOWN = [
+    {"kind": "known", "signature": {"fam": "show", "value": "nil-pointer-to-value-receiver-stringer", "ctx": "string-like"},
+     "what": "showing a nil pointer whose type has a value-receiver String method ((*time.Time)(nil), (*T)(nil)) in a text/HTML/attribute/CSS/string/Markdown/URL context: the renderer calls v.String() on the nil pointer -> Go run-time panic 'value method ... called using nil pointer' under OpShow -> host panic (fmt prints <nil>)"},
+    {"kind": "known", "signature": {"fam": "show", "value": "cyclic", "ctx": "script"},
+     "what": "showing a self-referencing pointer / map / slice in a JavaScript or JSON context: showInJS/showInJSON recurse without a depth or cycle check -> the goroutine stack overflows and the Go run time kills the process (encoding/json returns an error)"},
+]
 
 
 # ---------------------------------------------------------------------------------------------- helpers
@@ -31,7 +36,10 @@ def judge(ctx, step, module, obs_path):
 
 
 def sample_fault(o):
-    return {"fault": o["fault"], "situation": o["situation"], "form": o["form"], "outcome": o["outcome"],
+    if o["kind"] == "show":
+        return {"value": o["value"], "ctx": o["ctx"], "box": o["box"], "outcome": o["outcome"], "msg": o["msg"][:160],
+                "src": o["src"], "out": o.get("out", "")[:120]}
+    return {"fault": o["fault"], "situation": o["situation"], "form": o["form"], "opt": o["opt"], "outcome": o["outcome"],
             "msg": o["msg"][:160], "src": o["src"]}
 
 
@@ -66,28 +74,29 @@ def confirm(ctx, tag, module, bads, obs_by_id, case_of, sample):
 
 # ---------------------------------------------------------------------------------------------- faults
 def case_of_fault(o):
-    return {"id": o["id"], "kind": "fault", "fault": o["fault"], "situation": o["situation"], "form": o["form"]}
+    if o["kind"] == "show":
+        return {"id": o["id"], "kind": "show", "value": o["value"], "ctx": o["ctx"], "box": o["box"],
+                "isolate": o["value"].startswith("cyclic")}
+    return {"id": o["id"], "kind": "fault", "fault": o["fault"], "situation": o["situation"], "form": o["form"], "opt": o["opt"]}
 
 
 def faults_part(ctx, only=None):
     cov = {}
     if only is None:
         wd = ctx.stage("mc_faults", FAMS)
-        rig.write_cfg(wd / "MC_Faults.cfg", init="FInit", next_="FNext", invariants=["TypeOK", "FunctionalAgrees"], deadlock=True)
+        rig.write_cfg(wd / "MC_Faults.cfg", init="FInit", next_="FNext", invariants=["TypeOK", "FunctionalAgrees", "StopClosedOnce", "ReferenceSane"], deadlock=True)
         r = ctx.tlc(wd, "MC_Faults", workers=4, timeout=600, coverage=not ctx.quick, must_pass=True)
         holes = rig.read_ndjson(wd / "model_holes.ndjson")
         cov.update(states=r.distinct, transitions=r.generated, mc_wall_s=round(r.wall, 1),
-                   mc_invariants=["TypeOK", "FunctionalAgrees", "no deadlock before done"])
+                   mc_invariants=["TypeOK", "FunctionalAgrees", "StopClosedOnce", "ReferenceSane", "StructWalkSafe", "no deadlock before done"])
         if not ctx.quick:
             cov["actions_never_taken"] = r.coverage_zero()
         if holes:
-            by = collections.Counter((h["class"], h["op"], h["pv"]) for h in holes if h["model"] == "hostpanic"
-                                     and not (h["form"] == "recover" and h["situation"].startswith("tmpl_")))
+            by = collections.Counter((h["class"], h["op"], h["pv"]) for h in holes if h["model"] == "hostpanic")
             cov["model_counterexample"] = {
                 "invariant": "ModelMeetsReference (model outcome in the reference's outcome set) - evaluated by TLC for every cell",
                 "cells": len(holes),
                 "by_fault_class_op_panicvalue": sorted("%s @ %s / %s: %d cells" % (k + (v,)) for k, v in by.items()),
-                "template_recover_cells": sum(1 for h in holes if h["form"] == "recover" and h["situation"].startswith("tmpl_")),
             }
         cases = wd / "cases.ndjson"
     else:
@@ -100,7 +109,11 @@ def faults_part(ctx, only=None):
     if noconc:
         raise Infra("driver has no concretisation for %d grid cells, e.g. %s" % (len(noconc), case_of_fault(noconc[0])))
     notbuilt = [o for o in allobs if o["outcome"] == "builderror"]
-    if len(notbuilt) * 20 > len(allobs):
+    # (a show whose static type the checker refuses is a build error by design: those are only counted)
+    nb_fault = [o for o in notbuilt if o["kind"] == "fault"]
+    nfault = sum(1 for o in allobs if o["kind"] == "fault")
+    if len(nb_fault) * 20 > max(nfault, 1) and only is None:
+        notbuilt = nb_fault
         raise Infra("%d of %d generated programs do not build, e.g. %s: %s" % (
             len(notbuilt), len(allobs), case_of_fault(notbuilt[0]), notbuilt[0]["msg"]))
     # "for any program that builds": the others are skipped and counted
@@ -110,9 +123,16 @@ def faults_part(ctx, only=None):
     # sensitivity self-test: corrupted copies of three observations ride along (ids >= 900000) and must be rejected
     st = []
     if only is None:
-        a = next((o for o in run_obs if o["form"] == "plain" and o["outcome"] == "panicerror"), None)
-        b = next((o for o in run_obs if o["form"] != "plain" and o["outcome"] == "nil" and o["recovered"]), None)
-        c = next((o for o in run_obs if o["fault"] == "nofault" and o["outcome"] == "nil"), None)
+        fo = [o for o in run_obs if o["kind"] == "fault"]
+        a = next((o for o in fo if o["form"] == "plain" and o["outcome"] == "panicerror"), None)
+        b = next((o for o in fo if o["form"] != "plain" and o["outcome"] == "nil" and o["recovered"]), None)
+        c = next((o for o in fo if o["fault"] == "nofault" and o["outcome"] == "nil"), None)
+        d = next((o for o in fo if o["situation"].startswith("seq_") and o["form"] == "recover" and o["outcome"] == "nil"), None)
+        e = next((o for o in run_obs if o["kind"] == "show" and o["outcome"] == "nil"), None)
+        if d:
+            st.append(dict(d, id=900004, outcome="panicerror", msg="corrupted"))
+        if e:
+            st.append(dict(e, id=900005, outcome="processdeath", msg="corrupted"))
         if a:
             st.append(dict(a, id=900001, outcome="hostpanic", msg="corrupted"))
         if b:
@@ -131,7 +151,10 @@ def faults_part(ctx, only=None):
             raise Infra("faults: sensitivity self-test failed (%d corrupted, %d rejected)" % (len(st), len(rejected)))
     cov.update(evaluations=len(run_obs), not_built=len(notbuilt), ref_undefined=diag["ref_undefined"],
                outcomes=dict(collections.Counter(o["outcome"] for o in run_obs)),
-               nontrivial=len({(o["fault"], o["situation"], o["form"]) for o in run_obs if o["outcome"] != "nil" or o["recovered"]}),
+               nontrivial=len({(o["fault"], o["situation"], o["form"], o["opt"]) for o in run_obs
+                               if o["kind"] == "fault" and (o["outcome"] != "nil" or o["recovered"])}) +
+               len({(o["value"], o["ctx"], o["box"]) for o in run_obs if o["kind"] == "show" and (o["outcome"] != "nil" or o["box"] == "any")}),
+               fault_cases=sum(1 for o in run_obs if o["kind"] == "fault"), show_cases=sum(1 for o in run_obs if o["kind"] == "show"),
                judged_bad_first_pass=len(bads),
                drift=len(diag["drift"]), outcome_not_the_reference_one=len(diag["refmiss"]))
     if notbuilt:
